@@ -131,7 +131,9 @@ pub struct Puppet<T> {
 /// values of puppet j: 10*j + k, k = 1, 2, 3, ...
 pub fn int_puppet(j: u8) -> Arc<Puppet<i64>> {
     Puppet::new(j, Box::new(move |_s, k| {
-        let v = 10 * j as i64 + k as i64;
+        // the third datum of puppet 0 is 0 (= i64::default(), and the seed of one scan world): code
+        // that treats a default / seed-valued datum specially must not go unnoticed
+        let v = if j == 0 && k == 3 { 0 } else { 10 * j as i64 + k as i64 };
         (v, Val::I(v))
     }))
 }
